@@ -4,6 +4,11 @@ import json, os, sys
 HERE = os.path.dirname(os.path.dirname(os.path.abspath(__file__)))
 
 CHECKS = {
+ "C03": dict(
+   technique="metamorphic property-based testing on generated collision pairs (premise observed, then implication checked) and composition equalities on single URLs incl. an exhaustive token sweep",
+   text="Pairs (u, T(u)) from five families (spelling / documented-irrelevant transformations over dirty, normalize-oriented, clean and platform bases) under 12 option sets: whenever the canonical (resp. normalized) forms coincide the normalized forms (resp. fingerprints) must coincide; normalize_url(canonicalize_url(u)) == normalize_url(u) and the fingerprint analogue on grammar URLs and on every token in six positions of a carrier URL. The share of pairs whose premise holds is measured (about 70% canonical-equal, >99% normalized-equal).",
+   note="Trusted base: the transformation catalogues (they only need to produce *candidate* collisions; the premise is always observed, never assumed).",
+   design="§4 C03"),
  "C04": dict(
    technique="metamorphic property-based testing: variants built from clean base URLs by composed transformations of a harness-owned documented-irrelevant catalogue; exhaustive permutation/position sweep; string equality",
    text="Base URLs from a clean grammar and 1-4 composed transformations (scheme, userinfo, irrelevant subdomains incl. amp./amp-, default port, host case, trailing slash, index page, plain fragment, every frozen tracking/session/AMP item at every position, all permutations of <=4 items, '&amp;' spellings, escape spelling, punycode, dot segments, whitespace, control characters), under default / quoted / platform_aware kwargs; redirect-wrapped URLs for the pre-step law.",
